@@ -1,4 +1,25 @@
 //! C02 — No network input can panic or hang the receive path
+//!
+//! Sub-checks (all sampled; the oracle everywhere is the engine's panic capture over every task of the case's world
+//! plus "valid traffic after the hostile input is still answered"):
+//! * `hostile` — one hostile input (structured mutations of valid messages / byte mutations / noise) through the
+//!   datagram parser, every typed decoder, the stream decoder and the whole receive path of a UAS endpoint
+//!   (DialogLayer + InviteLayer + an application accepting every INVITE), outside a dialog or inside the dialog of a
+//!   call set up before (established / before the ACK / INVITE still pending). The world then runs 40 s, or
+//!   (`long_life`) 1900 s so that the 1800 s session timer of the set-up call expires and the session ends itself.
+//! * `uac_hostile_responses` — hostile header values in the responses to an INVITE sent through `Initiator`
+//!   (C13's world; the application is handed early dialogs / sessions and does nothing with them).
+//! * `uac_session_life` — the same UAC side, but the application USES what it was handed: every `Session` (directly
+//!   from a 2xx or through its early dialog) is driven with the default handling of each event while the values the
+//!   peer put into the 2xx take effect. Generated: history shape (2xx first / 18x then 2xx of the same fork / two
+//!   forks / failure), a `Session-Expires` line = name spelling x delta (0, 1..22, 30..91, 1800, u32::MAX-10.., not a
+//!   u32) x parameter shape (none, refresher=uac|uas, empty / unknown / other-case value, other parameters only,
+//!   twice, odd syntax) with or without `Require: timer` / `Supported`, further hostile headers; how `Initiator` is
+//!   configured (timer support, Session-Expires asked for); what the peer does with the requests ezk sends inside the
+//!   dialog when the timer fires (silence or a delayed response, possibly hostile); requests of the peer inside the
+//!   dialog (BYE / re-INVITE / UPDATE / others, CSeq up to u32::MAX+1, hostile headers, ACK or not); whether the
+//!   application answers a re-INVITE, how many events it handles, whether and when it hangs up; 0.9 s .. 1900 s of
+//!   virtual time. Not asserted: which event the application gets, what goes over the wire, when (C13 / C17).
 
 use super::c03::{decode_stream, hex_bytes};
 use crate::engine::*;
@@ -36,6 +57,10 @@ pub struct Case {
     /// with in_dialog (and not early): deliver after the application sent its 200 but before the peer's ACK
     #[serde(default)]
     pub before_ack: bool,
+    /// with in_dialog: the world runs 1900 s of virtual time instead of 40 s after the input, so the session timer the
+    /// application armed for the call (1800 s, peer refreshes) expires and the session ends itself with a BYE
+    #[serde(default)]
+    pub long_life: bool,
     pub rng: u8,
 }
 
@@ -394,12 +419,13 @@ pub fn strategy() -> BoxedStrategy<Case> {
                 Just(in_dialog),
                 prop::bool::weighted(0.4),
                 any::<u8>(),
+                prop::bool::weighted(0.2),
             )
         })
-        .prop_map(|((bytes, labels), stream_cuts, in_dialog, early, rng)| {
+        .prop_map(|((bytes, labels), stream_cuts, in_dialog, early, rng, long_life)| {
             // in-dialog delivery uses the datagram transport the call was set up on
             let stream_cuts = if in_dialog { None } else { stream_cuts };
-            Case { bytes, labels, stream_cuts, in_dialog, early: early && in_dialog, before_ack: in_dialog && !early && rng % 2 == 1, rng }
+            Case { bytes, labels, stream_cuts, in_dialog, early: early && in_dialog, before_ack: in_dialog && !early && rng % 2 == 1, long_life: long_life && in_dialog, rng }
         })
         .boxed()
 }
@@ -542,6 +568,9 @@ pub fn check(case: &Case, out: &mut CaseOut) {
         } else {
             "inside-established-dialog"
         });
+        if case.long_life {
+            out.class("world-outlives-the-session-timer(1900 s)");
+        }
     }
 
     // 1. pure parsers: datagram parser + every typed decoder; stream decoder under the segmentation
@@ -657,8 +686,9 @@ pub fn check(case: &Case, out: &mut CaseOut) {
             inject(&endpoint, &tp, src, &ack);
             settle().await;
         }
-        // let timers of whatever the input started run for a while (retransmissions, session timers)
-        clock.advance(40_000).await;
+        // let timers of whatever the input started run for a while (retransmissions, session timers); the long life
+        // reaches past the expiry of the 1800 s session timer of the set-up call (BYE by ezk, unanswered)
+        clock.advance(if c.long_life { 1_900_000 } else { 40_000 }).await;
         settle().await;
 
         // datagram probe
@@ -747,6 +777,704 @@ fn check_uac(case: &super::c13::Case, out: &mut CaseOut) {
     }
 }
 
+// ---------------------------------------------------------------------------------------------
+// the life of a session created from hostile responses (UAC side): the application USES what it was handed
+//
+// `uac_hostile_responses` above stops at the moment `Initiator` / `Early` hand the application a `Session`. Here the
+// application goes on like a real one: every `Session` is driven (`Session::drive`, default handling of each event)
+// while the peer-supplied values that were stored in it take effect: the session timer armed from the 2xx's
+// Session-Expires fires (refresh re-INVITE by ezk, or BYE when the peer was the refresher), the peer answers those
+// requests (or not) with further hostile responses, sends requests of its own inside the dialog, and the application
+// finally hangs up (`Session::terminate`).
+
+/// one response of the peer to the INVITE
+#[derive(Serialize, Deserialize, Clone, Debug, Hash)]
+pub struct LifeResp {
+    /// ms after the previous one
+    pub gap: u64,
+    pub code: u16,
+    /// None = no To-tag, Some(i) = fork "t<i>"
+    pub tag: Option<u8>,
+    /// complete header lines (Contact, Supported, Require, Session-Expires in any spelling, hostile extras)
+    pub headers: Vec<String>,
+}
+
+/// what the peer does with one request ezk sends inside the dialog (refresh re-INVITE, BYE)
+#[derive(Serialize, Deserialize, Clone, Debug, Hash)]
+pub struct PeerAnswer {
+    pub delay_ms: u64,
+    pub code: u16,
+    pub headers: Vec<String>,
+}
+
+/// a request of the peer inside the dialog of fork `tag`
+#[derive(Serialize, Deserialize, Clone, Debug, Hash)]
+pub struct PeerRequest {
+    /// ms after the last response to the INVITE
+    pub at_ms: u64,
+    pub method: String,
+    pub tag: u8,
+    /// CSeq number as text (full integer range and beyond)
+    pub cseq: String,
+    pub headers: Vec<String>,
+    /// the peer ACKs a 2xx to its re-INVITE
+    pub ack: bool,
+}
+
+#[derive(Serialize, Deserialize, Clone, Debug, Hash)]
+pub struct LifeCase {
+    pub responses: Vec<LifeResp>,
+    /// i-th entry = the peer's reaction to the i-th distinct in-dialog request ezk sends (None / missing = silence)
+    pub answers: Vec<Option<PeerAnswer>>,
+    pub requests: Vec<PeerRequest>,
+    /// how `Initiator` is configured (see `LIFE_CONFIGS`)
+    pub config: u8,
+    /// events the application handles per session before it stops calling `drive` (it keeps the session)
+    pub max_events: u8,
+    /// the application hangs up (`Session::terminate`) this long after it was handed the session
+    pub hangup_ms: Option<u64>,
+    /// the application answers a re-INVITE with 200 (else it lets go of the event)
+    pub accept_reinvite: bool,
+    /// virtual time the world runs after the last response to the INVITE
+    pub life_ms: u64,
+    /// shape labels of the generator (fixed vocabulary, see `LIFE_LABELS`)
+    pub labels: Vec<String>,
+    pub rng: u8,
+}
+
+/// Session-Expires delta as the peer writes it: (text, class)
+const SE_DELTAS: &[(&str, &str)] = &[
+    ("0", "se-delta:0"), ("1", "se-delta:1..9"), ("2", "se-delta:1..9"), ("3", "se-delta:1..9"), ("9", "se-delta:1..9"),
+    ("10", "se-delta:10..22"), ("11", "se-delta:10..22"), ("19", "se-delta:10..22"), ("20", "se-delta:10..22"), ("21", "se-delta:10..22"), ("22", "se-delta:10..22"),
+    ("40", "se-delta:30..91"), ("89", "se-delta:30..91"), ("90", "se-delta:30..91"), ("91", "se-delta:30..91"),
+    ("1800", "se-delta:1800"),
+    ("4294967285", "se-delta:near-u32-max"), ("4294967286", "se-delta:near-u32-max"), ("4294967295", "se-delta:near-u32-max"),
+    ("4294967296", "se-delta:not-a-u32"), ("-1", "se-delta:not-a-u32"), ("", "se-delta:not-a-u32"),
+    ("007", "se-delta:1..9"), ("5 ", "se-delta:1..9"), ("0", "se-delta:0"), ("4", "se-delta:1..9"), ("12", "se-delta:10..22"), ("30", "se-delta:30..91"),
+];
+/// what follows the delta: (text, class). RFC 4028 wants `;refresher=uac|uas` in a 2xx, a sloppy or hostile peer sends anything
+const SE_PARAMS: &[(&str, &str)] = &[
+    ("", "se-param:none"), ("", "se-param:none"), ("", "se-param:none"),
+    (";refresher=uac", "se-param:refresher=uac"), (";refresher=uac", "se-param:refresher=uac"),
+    (";refresher=uas", "se-param:refresher=uas"), (";refresher=uas", "se-param:refresher=uas"),
+    (";refresher=", "se-param:refresher-with-empty-or-unknown-value"), (";refresher=x", "se-param:refresher-with-empty-or-unknown-value"),
+    (";refresher", "se-param:refresher-with-empty-or-unknown-value"), (";refresher=uacs", "se-param:refresher-with-empty-or-unknown-value"),
+    (";REFRESHER=UAS", "se-param:refresher-in-other-letter-case"), (";refresher=UAC", "se-param:refresher-in-other-letter-case"), (";Refresher=Uas", "se-param:refresher-in-other-letter-case"),
+    (";x=y", "se-param:other-parameters-only"), (";lr", "se-param:other-parameters-only"), (";refresh=uac", "se-param:other-parameters-only"),
+    (";x=y;refresher=uas", "se-param:refresher-among-others-or-twice"), (";refresher=uas;refresher=uac", "se-param:refresher-among-others-or-twice"), (";refresher=uac;x", "se-param:refresher-among-others-or-twice"),
+    (";;", "se-param:odd-syntax"), (" ; refresher = uac", "se-param:odd-syntax"), (";refresher=\"uac\"", "se-param:odd-syntax"), (";refresher=%75as", "se-param:odd-syntax"),
+];
+const SE_NAMES: &[&str] = &["Session-Expires", "Session-Expires", "Session-Expires", "Session-Expires", "x", "session-expires", "SESSION-EXPIRES"];
+
+/// `Initiator` configurations: (support_timer, support_100rel, expires_secs, refresher 0 = unspecified 1 = uac 2 = uas, class)
+const LIFE_CONFIGS: &[(bool, bool, Option<u32>, u8, &str)] = &[
+    (true, true, None, 0, "initiator:default"),
+    (true, true, None, 0, "initiator:default"),
+    (true, true, Some(90), 1, "initiator:asks-90-refresher-uac"),
+    (true, true, Some(1800), 2, "initiator:asks-1800-refresher-uas"),
+    (true, false, Some(4294967295), 0, "initiator:asks-u32max-no-100rel"),
+    (false, true, None, 0, "initiator:timer-not-supported"),
+];
+
+/// every class label of this sub-check (labels travel in the case as text; the histogram wants `&'static str`)
+const LIFE_LABELS: &[&str] = &[
+    "2xx-without-session-expires", "2xx-with-require-timer", "2xx-without-contact", "2xx-with-hostile-extra-header", "18x-with-session-expires",
+    "18x-reliable(Require 100rel, RSeq)", "history:2xx-first", "history:18x-then-2xx-same-fork", "history:2xx-of-two-forks", "history:failure-or-none",
+    "peer-request:BYE", "peer-request:INVITE", "peer-request:UPDATE", "peer-request:other-method", "peer-answers-ezk's-in-dialog-request", "peer-silent-to-ezk's-in-dialog-requests",
+    "application-hangs-up", "application-accepts-re-INVITE",
+];
+
+fn static_label(l: &str) -> Option<&'static str> {
+    LIFE_LABELS
+        .iter()
+        .chain(SE_DELTAS.iter().map(|x| &x.1))
+        .chain(SE_PARAMS.iter().map(|x| &x.1))
+        .chain(LIFE_CONFIGS.iter().map(|x| &x.4))
+        .find(|s| **s == l)
+        .copied()
+}
+
+/// a Session-Expires header line (any spelling of the name, delta x parameters) and its two classes
+fn session_expires_line() -> BoxedStrategy<(String, [&'static str; 2])> {
+    (any::<u16>(), any::<u16>(), any::<u16>())
+        .prop_map(|(n, d, p)| {
+            let name = SE_NAMES[pick_idx(n, SE_NAMES.len())];
+            let (delta, dl) = SE_DELTAS[pick_idx(d, SE_DELTAS.len())];
+            let (param, pl) = SE_PARAMS[pick_idx(p, SE_PARAMS.len())];
+            (format!("{name}: {delta}{param}"), [dl, pl])
+        })
+        .boxed()
+}
+
+fn hostile_lines(max: usize) -> BoxedStrategy<Vec<String>> {
+    prop::collection::vec(
+        prop_oneof![
+            3 => any::<u16>().prop_map(|h| HOSTILE_RESP_HEADERS[pick_idx(h, HOSTILE_RESP_HEADERS.len())].to_string()),
+            1 => session_expires_line().prop_map(|x| x.0),
+        ],
+        0..=max,
+    )
+    .boxed()
+}
+
+/// the ingredients of one response; code and To-tag may be overridden by the shape of the history
+#[derive(Clone, Debug)]
+struct RespParts {
+    gap: u64,
+    code: u16,
+    tag: Option<u8>,
+    contact: bool,
+    se: Option<(String, [&'static str; 2])>,
+    require_timer: bool,
+    supported: bool,
+    reliable: bool,
+    hostile: Vec<String>,
+}
+
+fn resp_parts() -> BoxedStrategy<RespParts> {
+    (
+        prop_oneof![Just(1u64), Just(20u64), Just(600u64)],
+        prop_oneof![1 => Just(100u16), 2 => Just(180u16), 2 => Just(183u16), 6 => Just(200u16), 1 => Just(202u16), 1 => Just(486u16)],
+        prop_oneof![1 => Just(None), 6 => Just(Some(0u8)), 3 => Just(Some(1u8))],
+        prop::bool::weighted(0.96),
+        prop::option::weighted(0.9, session_expires_line()),
+        (prop::bool::weighted(0.6), prop::bool::weighted(0.7), prop::bool::weighted(0.3)),
+        prop_oneof![7 => Just(vec![]), 1 => hostile_lines(2)],
+    )
+        .prop_map(|(gap, code, tag, contact, se, (require_timer, supported, reliable), hostile)| RespParts { gap, code, tag, contact, se, require_timer, supported, reliable, hostile })
+        .boxed()
+}
+
+fn build_resp(p: RespParts) -> (LifeResp, Vec<&'static str>) {
+    let RespParts { gap, code, tag, contact, se, require_timer, supported, reliable, hostile } = p;
+    let mut headers = vec![];
+    let mut labels = vec![];
+    let tag = if code == 100 { None } else { tag };
+    if contact {
+        headers.push("Contact: <sip:bob@192.0.2.1:5060>".to_string());
+    }
+    if supported {
+        headers.push("Supported: timer, 100rel".to_string());
+    }
+    match code {
+        200..=299 => {
+            if !contact {
+                labels.push("2xx-without-contact");
+            }
+            if require_timer {
+                headers.push("Require: timer".to_string());
+                labels.push("2xx-with-require-timer");
+            }
+            match se {
+                Some((line, classes)) => {
+                    headers.push(line);
+                    labels.extend(classes);
+                }
+                None => labels.push("2xx-without-session-expires"),
+            }
+            if !hostile.is_empty() {
+                labels.push("2xx-with-hostile-extra-header");
+            }
+        }
+        101..=199 => {
+            if reliable {
+                headers.push("Require: 100rel".to_string());
+                headers.push(format!("RSeq: {}", 1 + gap));
+                labels.push("18x-reliable(Require 100rel, RSeq)");
+            }
+            // a Session-Expires in a provisional response means nothing, but it is there when the 2xx is not
+            if let (Some((line, _)), true) = (se, require_timer && reliable) {
+                headers.push(line);
+                labels.push("18x-with-session-expires");
+            }
+        }
+        _ => {}
+    }
+    headers.extend(hostile);
+    (LifeResp { gap, code, tag, headers }, labels)
+}
+
+/// shapes of the response history: (code, To-tag) of the leading responses; what follows them is free
+const HISTORY_SHAPES: &[&[(u16, Option<u8>)]] = &[
+    &[],
+    &[(200, Some(0))],
+    &[(200, Some(0))],
+    &[(180, Some(0)), (200, Some(0))],
+    &[(183, Some(0)), (200, Some(0))],
+    &[(100, None), (180, Some(1)), (200, Some(1))],
+    &[(180, Some(0)), (200, Some(1))],
+    &[(200, Some(0)), (200, Some(1))],
+    &[(180, Some(0)), (180, Some(1)), (200, Some(1)), (200, Some(0))],
+];
+
+fn life_strategy() -> BoxedStrategy<LifeCase> {
+    let answer = prop::option::weighted(
+        0.6,
+        (
+            prop_oneof![Just(1u64), Just(600u64), Just(5_000u64), Just(33_000u64)],
+            prop_oneof![1 => Just(100u16), 1 => Just(180u16), 5 => Just(200u16), 1 => Just(202u16), 1 => Just(404u16), 1 => Just(408u16), 1 => Just(481u16), 1 => Just(491u16), 1 => Just(500u16), 1 => Just(603u16)],
+            prop_oneof![3 => Just(vec![]), 2 => hostile_lines(2)],
+        )
+            .prop_map(|(delay_ms, code, headers)| PeerAnswer { delay_ms, code, headers }),
+    );
+    let request = (
+        prop_oneof![Just(5u64), Just(300u64), Just(3_000u64), Just(12_000u64), Just(40_000u64)],
+        prop_oneof![3 => Just("BYE"), 3 => Just("INVITE"), 2 => Just("UPDATE"), 1 => Just("OPTIONS"), 1 => Just("INFO"), 1 => Just("ACK"), 1 => Just("PRACK"), 1 => Just("CANCEL")],
+        prop_oneof![3 => Just(0u8), 1 => Just(1u8)],
+        prop_oneof![4 => Just("1"), 2 => Just("2"), 1 => Just("0"), 1 => Just("4294967294"), 2 => Just("4294967295"), 1 => Just("4294967296")],
+        prop_oneof![2 => Just(vec![]), 3 => hostile_lines(2)],
+        any::<bool>(),
+    )
+        .prop_map(|(at_ms, method, tag, cseq, headers, ack)| PeerRequest { at_ms, method: method.to_string(), tag, cseq: cseq.to_string(), headers, ack });
+    (
+        (prop::collection::vec(resp_parts(), 1..5), any::<u16>()),
+        prop::collection::vec(answer, 0..4),
+        prop_oneof![1 => Just(vec![]), 1 => prop::collection::vec(request, 1..3)],
+        any::<u16>(),
+        1u8..7,
+        prop::option::weighted(0.3, prop_oneof![Just(400u64), Just(7_000u64), Just(36_000u64), Just(95_000u64)]),
+        any::<bool>(),
+        prop_oneof![1 => Just(900u64), 3 => Just(26_000u64), 3 => Just(70_000u64), 3 => Just(140_000u64), 1 => Just(1_900_000u64)],
+        any::<u8>(),
+    )
+        .prop_map(|((mut parts, shape), answers, mut requests, cfg, max_events, hangup_ms, accept_reinvite, life_ms, rng)| {
+            let config = pick_idx(cfg, LIFE_CONFIGS.len()) as u8;
+            let mut labels: Vec<&'static str> = vec![LIFE_CONFIGS[config as usize].4];
+            let shape = HISTORY_SHAPES[pick_idx(shape, HISTORY_SHAPES.len())];
+            while parts.len() < shape.len() {
+                let again = parts[parts.len() - 1].clone();
+                parts.push(again);
+            }
+            for (p, (code, tag)) in parts.iter_mut().zip(shape.iter()) {
+                p.code = *code;
+                p.tag = *tag;
+            }
+            let mut responses = vec![];
+            for p in parts {
+                let (r, l) = build_resp(p);
+                labels.extend(l);
+                responses.push(r);
+            }
+            // shape of the history
+            let first_2xx = responses.iter().position(|r| (200..300).contains(&r.code) && r.tag.is_some());
+            labels.push(match first_2xx {
+                None => "history:failure-or-none",
+                Some(i) => {
+                    let tag = responses[i].tag;
+                    if responses.iter().any(|r| (200..300).contains(&r.code) && r.tag.is_some() && r.tag != tag) {
+                        "history:2xx-of-two-forks"
+                    } else if responses[..i].iter().any(|r| (101..200).contains(&r.code) && r.tag == tag) {
+                        "history:18x-then-2xx-same-fork"
+                    } else {
+                        "history:2xx-first"
+                    }
+                }
+            });
+            requests.sort_by_key(|q| q.at_ms);
+            for q in &requests {
+                labels.push(match q.method.as_str() {
+                    "BYE" => "peer-request:BYE",
+                    "INVITE" => "peer-request:INVITE",
+                    "UPDATE" => "peer-request:UPDATE",
+                    _ => "peer-request:other-method",
+                });
+            }
+            labels.push(if answers.iter().any(|a| a.is_some()) { "peer-answers-ezk's-in-dialog-request" } else { "peer-silent-to-ezk's-in-dialog-requests" });
+            if hangup_ms.is_some() {
+                labels.push("application-hangs-up");
+            }
+            if accept_reinvite {
+                labels.push("application-accepts-re-INVITE");
+            }
+            labels.sort();
+            labels.dedup();
+            LifeCase { responses, answers, requests, config, max_events, hangup_ms, accept_reinvite, life_ms, labels: labels.into_iter().map(str::to_string).collect(), rng }
+        })
+        .boxed()
+}
+
+/// Datagram transport whose `send` appends to the wire log AND hands the message to the scripted peer
+struct TapDatagram {
+    log: WireLog,
+    bound: SocketAddr,
+    tap: tokio::sync::mpsc::UnboundedSender<Sent>,
+}
+
+impl std::fmt::Debug for TapDatagram {
+    fn fmt(&self, f: &mut std::fmt::Formatter<'_>) -> std::fmt::Result {
+        write!(f, "TapDatagram({})", self.bound)
+    }
+}
+impl std::fmt::Display for TapDatagram {
+    fn fmt(&self, f: &mut std::fmt::Formatter<'_>) -> std::fmt::Result {
+        write!(f, "mock:UDP:{}", self.bound)
+    }
+}
+
+#[async_trait::async_trait]
+impl sip_core::transport::Transport for TapDatagram {
+    fn name(&self) -> &'static str {
+        "UDP"
+    }
+    fn secure(&self) -> bool {
+        false
+    }
+    fn reliable(&self) -> bool {
+        false
+    }
+    fn bound(&self) -> SocketAddr {
+        self.bound
+    }
+    fn sent_by(&self) -> SocketAddr {
+        self.bound
+    }
+    fn direction(&self) -> sip_core::transport::Direction {
+        sip_core::transport::Direction::None
+    }
+    async fn send(&self, message: &[u8], target: SocketAddr) -> std::io::Result<()> {
+        let s = Sent { t_ms: self.log.clock.now_ms(), tp: 1, dest: target, bytes: bytes::Bytes::copy_from_slice(message) };
+        self.log.sent.lock().push(s.clone());
+        let _ = self.tap.send(s);
+        Ok(())
+    }
+}
+
+/// what the application and the wire saw (counters only: the oracle is "no panic, still alive")
+#[derive(Default, Clone, Debug)]
+struct LifeObs {
+    invite_sent: bool,
+    sessions_direct: u32,
+    sessions_through_early: u32,
+    no_session_errors: u32,
+    refresh_needed: u32,
+    refresh_failed: u32,
+    bye_events: u32,
+    reinvite_events: u32,
+    terminated_events: u32,
+    drive_errors: u32,
+    hung_up: u32,
+    gave_up_driving: u32,
+    /// distinct requests ezk sent inside a dialog (by branch): re-INVITE, BYE
+    ezk_reinvites: u32,
+    ezk_byes: u32,
+    peer_answered: u32,
+    probe_answered: bool,
+    wire_len: usize,
+}
+
+type SharedObs = std::sync::Arc<parking_lot::Mutex<LifeObs>>;
+
+#[derive(Clone, Copy)]
+struct AppCfg {
+    max_events: u8,
+    hangup_ms: Option<u64>,
+    accept_reinvite: bool,
+}
+
+/// the application's handling of one `Session`: drive it, handle every event the default way, hang up when it is time
+async fn session_life(mut session: sip_ua::invite::session::Session, cfg: AppCfg, obs: SharedObs, parked: std::sync::Arc<parking_lot::Mutex<Vec<sip_ua::invite::session::Session>>>) {
+    let deadline = cfg.hangup_ms.map(|h| tokio::time::Instant::now() + std::time::Duration::from_millis(h));
+    let mut hang_up = false;
+    let mut ended = false;
+    for _ in 0..cfg.max_events {
+        let event = match deadline {
+            Some(d) => match tokio::time::timeout_at(d, session.drive()).await {
+                Ok(e) => e,
+                Err(_) => {
+                    hang_up = true;
+                    break;
+                }
+            },
+            None => session.drive().await,
+        };
+        match event {
+            Ok(SessionEvent::RefreshNeeded(e)) => {
+                obs.lock().refresh_needed += 1;
+                if e.process_default().await.is_err() {
+                    obs.lock().refresh_failed += 1;
+                }
+            }
+            Ok(SessionEvent::Bye(e)) => {
+                obs.lock().bye_events += 1;
+                let _ = e.process_default().await;
+            }
+            Ok(SessionEvent::ReInviteReceived(e)) => {
+                obs.lock().reinvite_events += 1;
+                if cfg.accept_reinvite {
+                    if let Ok(response) = e.session.dialog.create_response(&e.invite, Code::OK, None) {
+                        let _ = e.respond_success(response).await;
+                    }
+                }
+            }
+            Ok(SessionEvent::Terminated) => {
+                obs.lock().terminated_events += 1;
+                ended = true;
+                break;
+            }
+            Err(_) => {
+                obs.lock().drive_errors += 1;
+                ended = true;
+                break;
+            }
+        }
+    }
+    if ended {
+        return;
+    }
+    if hang_up {
+        obs.lock().hung_up += 1;
+        let _ = session.terminate().await;
+    } else {
+        // the application has other things to do; it keeps the session object until the end of the world
+        obs.lock().gave_up_driving += 1;
+        parked.lock().push(session);
+    }
+}
+
+fn run_life(case: &LifeCase) -> LifeObs {
+    use sip_ua::invite::initiator::{EarlyResponse, Initiator, Response};
+    use std::sync::Arc;
+    let c = case.clone();
+    run_world(case.rng as u64, |clock| async move {
+        let obs: SharedObs = Default::default();
+        let log = WireLog::new(clock);
+        let (tap_tx, mut tap_rx) = tokio::sync::mpsc::unbounded_channel::<Sent>();
+        let tp = sip_core::transport::TpHandle::new(TapDatagram { log: log.clone(), bound: "10.0.0.1:5060".parse().unwrap(), tap: tap_tx });
+        let mut b = offline_builder();
+        b.add_unmanaged_transport(tp.clone());
+        let dl = b.add_layer(DialogLayer::default());
+        let il = b.add_layer(InviteLayer::default());
+        let endpoint = b.build();
+        let peer: SocketAddr = "192.0.2.1:5060".parse().unwrap();
+
+        let local: SipUri = "sip:alice@example.org".parse().unwrap();
+        let contact: SipUri = "sip:alice@10.0.0.1:5060".parse().unwrap();
+        let target: SipUri = "sip:bob@192.0.2.1".parse().unwrap();
+        let mut initiator = Initiator::new(endpoint.clone(), dl, il, NameAddr::uri(local), Contact::new(NameAddr::uri(contact)), Box::new(target));
+        let (support_timer, support_100rel, expires_secs, refresher, _) = LIFE_CONFIGS[(c.config as usize).min(LIFE_CONFIGS.len() - 1)];
+        initiator.support_timer = support_timer;
+        initiator.support_100rel = support_100rel;
+        initiator.timer_config.expires_secs = expires_secs;
+        initiator.timer_config.refresher = match refresher {
+            1 => Refresher::Uac,
+            2 => Refresher::Uas,
+            _ => Refresher::Unspecified,
+        };
+        let invite = initiator.create_invite();
+        if initiator.send_invite(invite).await.is_err() {
+            return obs.lock().clone();
+        }
+        settle().await;
+        let Some(inv) = log.snapshot().first().and_then(|s| WireMsg::parse(&s.bytes)) else { return obs.lock().clone() };
+        obs.lock().invite_sent = true;
+
+        // ---- the application
+        let cfg = AppCfg { max_events: c.max_events, hangup_ms: c.hangup_ms, accept_reinvite: c.accept_reinvite };
+        let parked: Arc<parking_lot::Mutex<Vec<sip_ua::invite::session::Session>>> = Default::default();
+        {
+            let (obs, parked) = (obs.clone(), parked.clone());
+            tokio::spawn(async move {
+                loop {
+                    match initiator.receive().await {
+                        Ok(Response::Provisional(_)) | Ok(Response::Failure(_)) => {}
+                        Ok(Response::Early(mut early, _, _)) => {
+                            let (obs, parked) = (obs.clone(), parked.clone());
+                            tokio::spawn(async move {
+                                loop {
+                                    match early.receive().await {
+                                        Ok(EarlyResponse::Provisional(..)) => {}
+                                        Ok(EarlyResponse::Success(session, _)) => {
+                                            obs.lock().sessions_through_early += 1;
+                                            // the early dialog has become a session: the application lets go of it
+                                            drop(early);
+                                            session_life(session, cfg, obs, parked).await;
+                                            return;
+                                        }
+                                        Ok(EarlyResponse::Terminated) => return,
+                                        Err(_) => {
+                                            obs.lock().no_session_errors += 1;
+                                            return;
+                                        }
+                                    }
+                                }
+                            });
+                        }
+                        Ok(Response::Session(session, _)) => {
+                            obs.lock().sessions_direct += 1;
+                            tokio::spawn(session_life(session, cfg, obs.clone(), parked.clone()));
+                        }
+                        Ok(Response::Finished) => break,
+                        Err(_) => {
+                            obs.lock().no_session_errors += 1;
+                            break;
+                        }
+                    }
+                }
+                // keep the initiator alive until the world ends (early dialogs reference its channels)
+                std::future::pending::<()>().await;
+                drop(initiator);
+            });
+        }
+
+        // ---- the peer's reactions to what ezk sends inside the dialogs
+        {
+            let (obs, endpoint, tp, c) = (obs.clone(), endpoint.clone(), tp.clone(), c.clone());
+            tokio::spawn(async move {
+                let mut seen = std::collections::BTreeSet::new();
+                let mut ordinal = 0usize;
+                while let Some(sent) = tap_rx.recv().await {
+                    let Some(m) = WireMsg::parse(&sent.bytes) else { continue };
+                    if m.is_request() {
+                        let method = m.method().unwrap_or("").to_string();
+                        if method == "ACK" || m.to_tag().is_none() {
+                            continue;
+                        }
+                        // retransmissions carry the branch of the original
+                        if !seen.insert(m.via_branch().unwrap_or_default()) {
+                            continue;
+                        }
+                        match method.as_str() {
+                            "INVITE" => obs.lock().ezk_reinvites += 1,
+                            "BYE" => obs.lock().ezk_byes += 1,
+                            _ => {}
+                        }
+                        let answer = c.answers.get(ordinal).cloned().flatten();
+                        ordinal += 1;
+                        if let Some(a) = answer {
+                            let (obs, endpoint, tp) = (obs.clone(), endpoint.clone(), tp.clone());
+                            tokio::spawn(async move {
+                                tokio::time::sleep(std::time::Duration::from_millis(a.delay_ms)).await;
+                                obs.lock().peer_answered += 1;
+                                inject(&endpoint, &tp, peer, &response_text(&m, a.code, None, &a.headers));
+                            });
+                        }
+                    } else if let (Some(code), Some((num, method))) = (m.status(), m.cseq()) {
+                        // a 2xx of ezk to a re-INVITE of the peer: ACK it when the script says so
+                        let branch = m.via_branch().unwrap_or_default();
+                        let Some(i) = branch.strip_prefix("z9hG4bKc02peer").and_then(|n| n.parse::<usize>().ok()) else { continue };
+                        if (200..300).contains(&code) && method == "INVITE" && c.requests.get(i).map_or(false, |q| q.ack) {
+                            let ack = request_text(
+                                "ACK", "sip:alice@10.0.0.1:5060", &[format!("SIP/2.0/UDP 192.0.2.1:5060;branch=z9hG4bKc02peerack{i}")],
+                                m.header("from").unwrap_or(""), m.header("to").unwrap_or(""), m.header("call-id").unwrap_or(""), num, "ACK", &[], b"");
+                            inject(&endpoint, &tp, peer, &ack);
+                        }
+                    }
+                }
+            });
+        }
+
+        // ---- the script: responses to the INVITE, then the peer's own requests inside the dialog
+        let mut t = 0;
+        for (i, r) in c.responses.iter().enumerate() {
+            t += r.gap;
+            clock.until(t).await;
+            let mut headers = vec![format!("X-Seq: m{i}")];
+            headers.extend(r.headers.iter().cloned());
+            let tag = r.tag.map(|t| format!("t{t}"));
+            inject(&endpoint, &tp, peer, &response_text(&inv, r.code, tag.as_deref(), &headers));
+            settle().await;
+        }
+        // From of the INVITE (with ezk's tag) is the To of the peer's requests, its To plus the fork's tag their From
+        let ezk_side = inv.header("from").unwrap_or("").to_string();
+        let peer_side = inv.header("to").unwrap_or("").to_string();
+        let call_id = inv.header("call-id").unwrap_or("").to_string();
+        for (i, q) in c.requests.iter().enumerate() {
+            clock.until(t + q.at_ms).await;
+            let mut s = format!("{} sip:alice@10.0.0.1:5060 SIP/2.0\r\n", q.method);
+            s.push_str(&format!("Via: SIP/2.0/UDP 192.0.2.1:5060;branch=z9hG4bKc02peer{i}\r\n"));
+            s.push_str(&format!("From: {peer_side};tag=t{}\r\nTo: {ezk_side}\r\nCall-ID: {call_id}\r\n", q.tag));
+            s.push_str(&format!("CSeq: {} {}\r\nMax-Forwards: 70\r\nContact: <sip:bob@192.0.2.1:5060>\r\n", q.cseq, q.method));
+            for h in &q.headers {
+                s.push_str(h);
+                s.push_str("\r\n");
+            }
+            s.push_str("Content-Length: 0\r\n\r\n");
+            inject(&endpoint, &tp, peer, s.as_bytes());
+            settle().await;
+        }
+        clock.until(t + c.life_ms).await;
+        settle().await;
+
+        // ---- liveness: a valid request from a third party is still answered
+        let probe_src: SocketAddr = "192.0.2.77:5060".parse().unwrap();
+        inject(&endpoint, &tp, probe_src, &probe_options(1, "UDP"));
+        settle().await;
+        let wire = log.parsed();
+        let answered = wire.iter().any(|(_, m)| m.as_ref().map_or(false, |m| !m.is_request() && m.via_branch().as_deref() == Some("z9hG4bKprobe1")));
+        let mut o = obs.lock().clone();
+        o.probe_answered = answered;
+        o.wire_len = wire.len();
+        parked.lock().clear();
+        o
+    })
+}
+
+fn check_life(case: &LifeCase, out: &mut CaseOut) {
+    for l in &case.labels {
+        if let Some(s) = static_label(l) {
+            out.class(s);
+        }
+    }
+    // the oracle: the engine's panic capture (any task of the world), the INVITE went out, the endpoint is still alive
+    let obs = run_life(case);
+    out.note = Some(format!("{obs:?}"));
+    if !obs.invite_sent {
+        out.fail("c02.uac-life/invite-not-sent", "INVITE not sent");
+        return;
+    }
+    if !obs.probe_answered {
+        out.fail("c02.uac-life/endpoint-silent-after-session", "a valid OPTIONS sent after the session's life got no response");
+    }
+    let sessions = obs.sessions_direct + obs.sessions_through_early;
+    if obs.sessions_direct > 0 {
+        out.class("application-got-session-directly-from-2xx");
+    }
+    if obs.sessions_through_early > 0 {
+        out.class("application-got-session-through-early-dialog");
+    }
+    if sessions == 0 {
+        out.class("no-session");
+    }
+    if obs.refresh_needed > 0 {
+        out.class("session-timer-fired:application-told-to-refresh");
+    }
+    if obs.refresh_needed > 1 {
+        out.class("session-timer-fired-again-after-a-refresh");
+    }
+    if obs.ezk_reinvites > 0 {
+        out.class("ezk-sent-refresh-re-INVITE");
+    }
+    if obs.ezk_byes > 0 && obs.hung_up == 0 {
+        out.class("session-timer-fired:session-expired(BYE by ezk)");
+    }
+    if obs.peer_answered > 0 {
+        out.class("peer-answered-ezk's-in-dialog-request");
+    }
+    if obs.bye_events > 0 {
+        out.class("peer's-BYE-reached-the-session");
+    }
+    if obs.reinvite_events > 0 {
+        out.class("peer's-re-INVITE-reached-the-session");
+    }
+    if obs.hung_up > 0 {
+        out.class("application-hung-up(Session::terminate)");
+    }
+    if obs.terminated_events > 0 {
+        out.class("session-reported-Terminated");
+    }
+    if obs.drive_errors > 0 {
+        out.class("Session::drive-returned-an-error");
+    }
+    if obs.gave_up_driving > 0 {
+        out.class("application-stopped-driving(max events)");
+    }
+    // non-trivial: a session existed and something happened in it after it was created
+    let activity = obs.refresh_needed + obs.ezk_byes + obs.ezk_reinvites + obs.bye_events + obs.reinvite_events + obs.hung_up + obs.terminated_events + obs.drive_errors;
+    if sessions > 0 && activity > 0 {
+        out.nontrivial(case);
+    }
+}
+
 fn seed_corpus_datagram(dir: &std::path::Path) {
     for (i, c) in sample_strategy(&strategy(), 7, 300).into_iter().enumerate() {
         let _ = std::fs::write(dir.join(format!("gen-{i:03}")), &c.bytes);
@@ -760,16 +1488,18 @@ pub fn property() -> Property {
     Property {
         fuzz: vec![FuzzStage { target: "sip_datagram", runs: 2_000_000, max_len: 6000, seed_corpus: seed_corpus_datagram }],
         id: "C02",
-        rule: "a case = one hostile input: (60%) a valid INVITE / OPTIONS / in-dialog BYE / 200 response / REGISTER with 1..3 mutations from a 24-entry catalogue (Content-Length incl. usize::MAX, duplicate compact l, CSeq / Session-Expires / Min-SE / Expires / Max-Forwards / RSeq / RAck over {0,1,9,10,11,u32::MAX-1,u32::MAX,u32::MAX+1,2^64-1,2^64,-1,...}, hostile Via / From / To / Contact / auth values, missing base headers, 20 Vias, invalid UTF-8, broken start lines, obs-fold, 4096+-2 byte heads, broken head terminators, body length mismatch), optional LF-only line ends, leading CRLFs, truncation; (20%) byte-level mutations of valid messages; (20%) random bytes / ASCII / SIP-token soup. Delivered as one datagram or over a stream connection in random segments. Checked: datagram parser, every typed header decoder on every header value, the stream decoder, then the whole receive path of an endpoint with DialogLayer + InviteLayer + an application that accepts every INVITE (180, reliable 183, 200, session), 40 s of virtual time, and finally a valid OPTIONS over the datagram transport and over a fresh connection must each be answered. Non-trivial = the input reached header decoding (start line parsed) and is not pure noise; distinct by bytes.",
+        rule: "hostile: a case = one hostile input: (60%) a valid INVITE / OPTIONS / in-dialog BYE, re-INVITE, PRACK, ACK, UPDATE / 200 response / REGISTER with 1..3 mutations from a 27-entry catalogue (Content-Length incl. usize::MAX, duplicate compact l, CSeq / Session-Expires / Min-SE / Expires / Max-Forwards / RSeq / RAck over {0,1,9,10,11,u32::MAX-1,u32::MAX,u32::MAX+1,2^64-1,2^64,-1,...}, hostile Via / From / To / Contact / auth values, missing base headers, 20 Vias, invalid UTF-8, broken start lines, obs-fold, 4096+-2 byte heads, broken head terminators, body length mismatch, long malformed values with a multi-byte character at any offset, the branch of a live transaction), optional LF-only line ends, leading CRLFs, truncation; (20%) byte-level mutations of valid messages; (20%) random bytes / ASCII / SIP-token soup. Delivered as one datagram or over a stream connection in random segments, outside a dialog or (40%) inside the dialog of a call set up before (established / before the ACK / INVITE pending). Checked: datagram parser, every typed header decoder on every header value, the stream decoder, then the whole receive path of an endpoint with DialogLayer + InviteLayer + an application that accepts every INVITE (180, reliable 183, 200, session driven for 4 events), 40 s of virtual time (in-dialog, 20%: 1900 s, past the expiry of the call's 1800 s session timer), and finally a valid OPTIONS over the datagram transport and over a fresh connection must each be answered. Non-trivial = the input reached header decoding (start line parsed) and is not pure noise; distinct by bytes. uac_hostile_responses: 1..5 responses (100/180/183/200/486, forks, Contact, Record-Route, RSeq) carrying 0..3 lines of a hostile-header list to an INVITE sent through Initiator; non-trivial = at least one hostile line; distinct by case. uac_session_life: a response history by shape (2xx first / 18x then 2xx of the same fork / other fork / two 2xx / free) whose 2xx carry a Session-Expires line = name spelling x delta {0,1..22,30..91,1800,u32::MAX-10..u32::MAX,not a u32} x parameters {none, refresher=uac, =uas, empty/unknown value, other letter case, other parameters only, twice/among others, odd syntax}, with/without Require: timer, Supported, Contact, hostile extras; Initiator configuration (6); per in-dialog request of ezk a peer reaction (silence or code in {100,180,200,202,404,408,481,491,500,603} after 1 ms..33 s with hostile lines); 0..2 peer requests inside the dialog (BYE/INVITE/UPDATE/OPTIONS/INFO/ACK/PRACK/CANCEL, CSeq {0,1,2,u32::MAX-1,u32::MAX,u32::MAX+1}, hostile lines, ACK or not); an application that drives every Session it is handed (default handling of RefreshNeeded / Bye, 200 or nothing for a re-INVITE, 1..6 events, optional hang-up via Session::terminate after 0.4..95 s); 0.9 s..1900 s of virtual time; then a valid OPTIONS must be answered. Non-trivial = the application got a session and something happened in it afterwards (timer fired, request of ezk or of the peer inside the dialog, hang-up, Terminated, drive error); distinct by case.",
         assumptions: vec![
-            "any panic on the case's thread (including spawned tasks of the current-thread runtime) is a violation; hangs are caught by the engine's wall-clock watchdog and reported as inconclusive",
+            "any panic on the case's thread (including spawned tasks of the current-thread runtime, e.g. the task driving a session) is a violation; hangs are caught by the engine's wall-clock watchdog and reported as inconclusive",
             "that a malformed message is answered is not asserted, only that valid traffic after it is",
+            "uac_session_life asserts nothing about WHICH event the application gets, what ezk sends or when (C13, C17); the application calls only the public API in the documented order (keeps the Initiator alive, stops polling an Early after its session / error, never drives a session after Terminated / an error)",
             "hostile values inside live dialog / INVITE / REGISTER scenarios are additionally covered by the scenario sub-checks of C10, C12, C13, C17 (u32::MAX CSeq, hostile Session-Expires / Min-SE / Expires, retransmitted 2xx, missing To-tag)",
         ],
-        explanation: "sampled; the mutation catalogue coverage is reported per entry in the class histogram",
+        explanation: "sampled; the mutation catalogue coverage (hostile) and the Session-Expires delta / parameter classes, history shapes and what actually happened in the session (uac_session_life) are reported per entry in the class histogram",
         subs: vec![
             prop_sub("hostile", strategy, 3000, 60000, check),
             prop_sub("uac_hostile_responses", uac_strategy, 1500, 30000, check_uac),
+            prop_sub("uac_session_life", life_strategy, 1000, 12000, check_life),
         ],
     }
 }
